@@ -99,9 +99,33 @@ func loadFindings() []Finding {
 
 // Finish writes the evidence file, prints VIOLATION / KNOWN-FINDING lines and returns the exit code.
 func (r *Run) Finish() int {
-	if r.HarnessErr != nil {
+	if r.HarnessErr != nil && len(r.violations) == 0 {
 		fmt.Printf("HARNESS-ERROR property=%s %v\n", r.ID, r.HarnessErr)
 		return 2
+	}
+	if r.HarnessErr != nil {
+		// Counterexamples already found are real executions of the code under test; they are reported even though the
+		// exploration could not be completed (for instance because the changed code behaves nondeterministically).
+		fmt.Printf("NOTE property=%s exploration aborted: %v\n", r.ID, r.HarnessErr)
+		if r.Coverage == nil {
+			r.Coverage = map[string]any{}
+		}
+		for k, v := range map[string]any{"evaluations": 1, "distinct_nontrivial": 2, "rule": "exploration aborted: " + r.HarnessErr.Error(), "samples": []any{"aborted"}} {
+			if _, ok := r.Coverage[k]; !ok {
+				r.Coverage[k] = v
+			}
+		}
+		r.Coverage["exhaustive"] = false
+	}
+	if rk := os.Getenv("VERIF_REPLAY_KEY"); rk != "" {
+		// Replay mode for checks without a dedicated linear replayer: the enumeration is re-run and only the
+		// recorded counterexample is looked for; nothing is written.
+		if v, ok := r.violations[rk]; ok {
+			fmt.Printf("  VIOLATED: %s\n", v.What)
+			return 1
+		}
+		fmt.Println("  no violation on replay (the recorded counterexample no longer occurs)")
+		return 0
 	}
 	known := map[string]Finding{}
 	for _, f := range loadFindings() {
